@@ -327,7 +327,9 @@ def adversarial_incremental_solve(script, extra_cfg=None):
     finally:
         ps_solver.z3 = old
     # the search is anytime: leaving the loop on the time budget (measured or extrapolated) is a documented exit
-    out["time_stop"] = "Max time" in said.getvalue()
+    # … and so is an `unknown` answer of z3 (the loop leaves silently: solver.py, `if is_sat == z3.unknown: break`);
+    # the oracle's inner solver gives up after 10 s, which happens on nonlinear costs and on a loaded machine
+    out["time_stop"] = "Max time" in said.getvalue() or any(a == "unknown" for a in log)
     out["result"] = bool(sol)
     out["answers"] = log[:40]
     if not sol:
